@@ -61,7 +61,7 @@ def detect(d, pids=None):
     assert ra.returncode == 0, ra.stdout
     try:
         for pid in pids:
-            r = sh([os.path.join(VERIF, 'check'), pid, '--tier', 'quick'], cwd=VERIF, timeout=3600)
+            r = sh([os.path.join(VERIF, 'check'), pid, '--tier', 'quick'], cwd=VERIF, timeout=3600, env=dict(os.environ, VERIF_EVIDENCE_DIR=tempfile.mkdtemp(prefix='verif_seed_ev_')))
             lines = [l for l in r.stdout.splitlines() if l.startswith('VIOLATION') or l.startswith('  [')]
             res[pid] = {'exit': r.returncode, 'first': lines[:2], 'tail': r.stdout.splitlines()[-1:] }
     finally:
